@@ -8,7 +8,9 @@ META = {
     "explanation": "mass fold, Substance.mass/charge and mass_fractions proved against spec; tables are data obligations against a reference snapshot; name lookup exhaustive",
     "trusted_base": ["spec/iupac.py reference table (snapshot of the pinned tree, spot-checked by hand)"],
     "not_decided": ["truth of the IUPAC values beyond the reference snapshot"],
-    "assumptions": [],
+    "assumptions": ["the electron mass is taken as the code's 5.489e-4 u (CODATA: 5.4858e-4 u, relative difference 6e-4; the repository's own test pins the code's value): the contracts decide that the SAME constant is used everywhere, not its accuracy",
+                    "spec/iupac.py is a snapshot of the pinned tree's table (detects drift, not disagreement with IUPAC)",
+                    "a substance whose data carries an explicit 'mass' reports that mass (precondition of the composition-sum clause: 'mass' not in data)"],
 }
 
 ELECTRON = 5.489e-4
@@ -216,3 +218,32 @@ def _(v):
     v.prove("mass_follows_the_composition", close(m1, 2 * ram[0] + ram[7]) and close(c.mass, 2 * ram[0] + 2 * ram[7]))
     d = Substance("Y", composition={1: 1}, data={"mass": 42.0})
     v.prove("explicit_mass_wins", d.mass == 42.0)
+
+
+@harness("C14", "masses_of_written_formulas", functions=["chempy.chemistry:Substance.from_formula", "chempy.chemistry:Substance.mass", "chempy.chemistry:Substance.molar_mass",
+                                                        "chempy.chemistry:mass_fractions", "chempy.util.periodic:mass_from_composition"], kind="data")
+def _(v):
+    """'additive over hydrate parts and groups, scales with multipliers, an ion differs from its neutral parent by exactly the electron masses' on
+    formulas (through the parser), and the default path of mass_fractions (substances made from the keys); expectations are sums written by hand
+    over the table of atomic weights"""
+    from chempy.chemistry import Substance, Species, mass_fractions
+    from chempy.util.periodic import relative_atomic_masses as ram, mass_from_composition
+    M = lambda f: Substance.from_formula(f).mass
+    w = lambda sym: ram[{"H": 1, "C": 6, "N": 7, "O": 8, "Na": 11, "S": 16, "Cl": 17, "Fe": 26, "Cu": 29}[sym] - 1]
+    me = 5.489e-4
+    close = lambda a, b: abs(a - b) <= 1e-9 * max(1.0, abs(b))
+    v.prove("sum_over_the_composition", close(M("H2O"), 2 * w("H") + w("O")) and close(M("CuSO4"), w("Cu") + w("S") + 4 * w("O")) and close(M("Fe(CN)6"), w("Fe") + 6 * w("C") + 6 * w("N")))
+    v.prove("hydrate_parts_add", close(M("CuSO4..5H2O"), M("CuSO4") + 5 * M("H2O")) and close(M("Na2CO3..7H2O(s)"), M("Na2CO3") + 7 * M("H2O")) and close(M("CuSO4..5H2O..2NH3"), M("CuSO4") + 5 * M("H2O") + 2 * M("NH3")))
+    v.prove("groups_scale_with_their_multiplier", all(close(M("(H2O)%d" % k), k * M("H2O")) and close(M("Fe((CN)2)%d" % k), M("Fe") + 2 * k * (w("C") + w("N"))) for k in (1, 2, 3, 7, 12, 250)))
+    v.prove("charge_written_in_the_formula", all(close(M(par) - M(ion), q * me) for par, ion, q in (("Fe", "Fe+3", 3), ("Fe(CN)6", "Fe(CN)6-4", -4), ("SO4", "SO4-2", -2), ("Na", "Na+", 1), ("O2", "O2-", -1))) and close(M("e-"), me))
+    v.prove("phase_suffix_and_prefix_do_not_weigh", close(M("NaCl(s)"), M("NaCl")) and close(M("alpha-FeOOH(s)"), M("FeOOH")) and close(Species.from_formula("Na+(aq)").mass, M("Na+")))
+    v.prove("every_element_alone", all(close(mass_from_composition({z: 1}), ram[z - 1]) and close(mass_from_composition({z: 3, 0: 2}), 3 * ram[z - 1] - 2 * me) for z in range(1, 119)))
+    fr = mass_fractions({"H2": 2, "O2": 1})
+    tot = 2 * M("H2") + M("O2")
+    v.prove("mass_fractions_from_formula_keys", set(fr) == {"H2", "O2"} and close(fr["H2"], 2 * M("H2") / tot) and close(fr["O2"], M("O2") / tot) and close(sum(fr.values()), 1.0) and all(x > 0 for x in fr.values()))
+    try:
+        from chempy.units import default_units as u, to_unitless
+        mm = Substance.from_formula("H2O").molar_mass()
+        v.prove("molar_mass_in_grams_per_mole", close(float(to_unitless(mm, u.gram / u.mol)), M("H2O")) and close(float(to_unitless(Substance.from_formula("H2O").molar_mass(u), u.kg / u.mol)), M("H2O") / 1000))
+    except ImportError:
+        pass
